@@ -585,8 +585,8 @@ func readStr(e HEvent) string {
 func init() {
 	Register(propConc{id: "C07",
 		rule: "cases: 2-3 RepeatableRead/Serializable transactions begun sequentially before the concurrent phase, each owned by one client that writes 1-3 values (2/3 of them to one hot key) and commits, all concurrently, plus optionally an autocommit writer on the same keys and a collector actor; seeded schedule (uniform/PCT); oracle over the call/return history: two overlapping snapshot writers of one key never both succeed, a write committed entirely between Begin and the Commit call forces ErrTxSerialization, a failed Commit is justified by some possibly-concurrent committed write, after quiescence no key holds a loser's value nor a value certainly superseded by a later acknowledged write; non-trivial = two clients' operations overlapped (a Commit overlapping another client's operation)",
-		runs: [2]int{6000, 250000}, gen: genC07, check: checkC07})
+		runs: [2]int{12000, 250000}, gen: genC07, check: checkC07})
 	Register(propConc{id: "C08",
 		rule: "cases: 1-2 snapshot readers that Begin during the concurrent phase and read every key and GetKeys twice, 1-2 committers each committing unique values to 2-3 keys at once (1-2 rounds), optional autocommit writer, collector actor (direct and GC timer) and other transactions beginning/ending; seeded schedule (uniform/PCT); oracle: interval rules over call/return event numbers only - atomic visibility (a reader that sees one write of a commit does not read, on another key of that commit, a value acknowledged before the Commit was invoked), snapshot validity (the value read was committed no later than Begin returned and is not certainly superseded before Begin was invoked; a present key is found), no dirty read, repeatable read of every key and of GetKeys; non-trivial = operations of different clients overlapped",
-		runs: [2]int{6000, 250000}, gen: genC08, check: checkC08})
+		runs: [2]int{10000, 250000}, gen: genC08, check: checkC08})
 }
